@@ -113,6 +113,8 @@ def extra_thunks():
         T.append((f"fn_p({d})", lambda f=f: fn_p(f)))
     for d, v in _NE_CONSTS.items():
         T.append((f"ne_p({d})", lambda v=v: ne_p(v)))
+    for d, v in {"'1'": "1", "'True'": "True", "'None'": "None", "'(1, 2)'": "(1, 2)"}.items():
+        T.append((f"ne_p({d})", lambda v=v: ne_p(v)))  # print like ne_p(1), ne_p(True), ne_p(None), ne_p((1, 2))
     for n in _VAR_NAMES:
         T.append((f"variable {n!r}", lambda n=n: NamedPredicate(name=n, v=False)))
     from predicate.standard_predicates import is_json_p
@@ -478,6 +480,25 @@ def main(tier):
         t = random_tree(rng, rng.randint(2, 4), descs)
         shared.append([rng.choice(list(BIN)), [rng.choice(list(UN)), t], [rng.choice(list(BIN)), t, ["not", t]]])
     run_stream(chk, "json/shared-objects", shared, thunks, stats, samples, share=True)
+    # 2c. distinct subtrees that PRINT the same (repr shows neither brackets nor quotes) inside one tree: each is rendered as what
+    #     it is, not as the other one
+    A, B, C = ["atom", "var a False"], ["atom", "ne 1"], ["atom", "truthy"]
+    alike = []
+    for o1 in BIN:
+        for o2 in BIN:
+            alike.append(([o2, [o1, A, B], C], [o1, A, [o2, B, C]]))          # a o1 b o2 c, grouped both ways
+    for o in BIN:
+        alike.append(([o, ["not", A], B], ["not", [o, A, B]]))                # ~a o b
+        alike.append(([o, ["not", ["not", A]], B], ["not", ["not", [o, A, B]]]))
+    for d1, d2 in (("ne_p(1)", "ne_p('1')"), ("ne_p(True)", "ne_p('True')"), ("ne_p(None)", "ne_p('None')"), ("ne_p((1, 2))", "ne_p('(1, 2)')"), ("variable 'a'", "var a False")):
+        if d1 in thunks and d2 in thunks:
+            alike.append((["atom", d1], ["atom", d2]))
+    alike_specs = []
+    for l, r in alike:
+        for o in BIN:
+            alike_specs += [[o, l, r], [o, r, l], ["not", [o, ["all", l], ["any", r]]], [o, [o, C, l], [o, r, C]]]
+    chk.extra["print_alike_pairs"] = len(alike)
+    run_stream(chk, "json/print-alike-subtrees", alike_specs, thunks, stats, samples)
     # 3. random trees over all atoms
     n_rnd, size = (6000, 5) if tier == "quick" else (150000, 6)
     rnd = [random_tree(rng, rng.randint(2, size), descs) for _ in range(n_rnd)]
@@ -525,6 +546,67 @@ def main(tier):
                     break
     chk.evaluations += hist_n
     chk.extra["render_change_render_histories"] = hist_n
+    # 3b'. a rendering that is abandoned by an exception (a chain too deep for the interpreter's default limit), then -- with the
+    #     limit raised -- the same object, its inner nodes and fresh trees are rendered: as if the failed call had never happened
+    import sys
+
+    from predicate.predicate import NotPredicate as _N
+
+    base = NamedPredicate(name="a") & ne_p(1)
+    chain = base
+    nodes = [base]
+    for _ in range(1500):
+        chain = _N(predicate=chain)
+        nodes.append(chain)
+    old_limit = sys.getrecursionlimit()
+    sys.setrecursionlimit(1000)
+    raised = None
+    try:
+        to_json(chain)
+    except RecursionError:
+        raised = "RecursionError"
+    except Exception as e:  # noqa: BLE001
+        raised = type(e).__name__
+    finally:
+        sys.setrecursionlimit(max(old_limit, 20000))
+    retry = [("the same chain", chain), ("an inner node of it (depth 700)", nodes[700]), ("an inner node of it (depth 3)", nodes[3]), ("its base", base),
+             ("a new tree over its base", base | ~base), ("a new tree", NamedPredicate(name="b") ^ ne_p(2))]
+    retry += [(f"a new small tree #{k}", ~(NamedPredicate(name=f"v{k}") & ne_p(k))) for k in range(200)]
+    for what, t in retry:
+        try:
+            j = to_json(t)
+        except Exception as e:  # noqa: BLE001
+            chk.add_failure({"history": f"to_json(~…~(a & ne_p(1)), 1500 deep) under the default recursion limit ({raised}); limit raised; to_json({what})"},
+                            {"what": f"to_json raised {type(e).__name__} after an earlier call was abandoned by an exception"}, None)
+            break
+        bad = judge(t, j)
+        if bad:
+            chk.add_failure({"history": f"to_json(~…~(a & ne_p(1)), 1500 deep) under the default recursion limit ({raised}); limit raised; to_json({what})"},
+                            {"what": "after an abandoned rendering, the rendering is not the rendering of the tree", "complaints": bad[:3]}, None)
+            break
+    sys.setrecursionlimit(old_limit)
+    chk.evaluations += len(retry)
+    chk.extra["exception_then_retry"] = {"first_call": raised, "later_calls": len(retry)}
+    # 3b''. constants that are themselves predicates (predicates are first-class values: ne_p(p) is "is not the predicate p"): the
+    #     constant stays the constant -- the very object -- and adds no nesting
+    from predicate import always_true_p, is_int_p
+
+    pv = [always_true_p, NamedPredicate(name="a") | is_int_p, ~NamedPredicate(name="a"), ne_p(1), all_p(is_int_p)]
+    pc = 0
+    for c in pv:
+        for mk in (lambda c: ne_p(c), lambda c: ~ne_p(c), lambda c: all_p(ne_p(c) & NamedPredicate(name="b")), lambda c: NamedPredicate(name="b") ^ ne_p(c)):
+            t = mk(c)
+            pc += 1
+            try:
+                j = to_json(t)
+            except Exception as e:  # noqa: BLE001
+                chk.add_failure({"history": f"to_json of a tree holding ne_p(<the predicate {c!r}>)"}, {"what": f"to_json raised {type(e).__name__}"}, None)
+                continue
+            bad = judge(t, j)
+            if bad:
+                chk.add_failure({"history": f"to_json of {t!r} whose ne constant is the predicate {c!r}"}, {"what": "a constant that is a predicate is not kept as the constant", "complaints": bad[:3], "json": repr(j)[:300]}, None)
+    chk.evaluations += pc
+    chk.extra["predicate_valued_constants"] = pc
     # 3c. user-defined subclasses of the node classes (a class statement that only adds a method / a repr): a node of a derived
     #     class is rendered as the kind it is, exactly like a node of the base class with the same fields
     import dataclasses
